@@ -27,7 +27,14 @@ struct Evaluator
             }
             return std::nan("");
         };
-        env.diff = [](const std::string &, const std::string &) { return std::nan(""); };
+        env.diff = [&](const std::string &x, const std::string &) {
+            // rate of a state as seen in its home component (appended shapes only: same component, same units)
+            int cls = -1, inst = -1;
+            if (m.findInstance(compName, x, cls, inst) && m.classes[static_cast<size_t>(cls)].role == GtRole::STATE) {
+                return m.classes[static_cast<size_t>(cls)].rate[point];
+            }
+            return std::nan("");
+        };
         double margin = 0;
         double v = evalExpr(e, env, &margin);
         if (!(std::isfinite(v) && margin >= kC20Margin && std::fabs(v) <= 1e4)) {
@@ -76,7 +83,15 @@ C20Ref c20Evaluate(const GtModel &gt, const std::vector<C20Binding> &bindings)
         }
         switch (cl.role) {
         case GtRole::VOI:
+            break;
         case GtRole::CONSTANT:
+            if (cl.initialisedBy >= 0) {
+                // takes the value its initialising constant has when initialiseVariables runs
+                cl.value[0] = cl.value[1] = m.classes[static_cast<size_t>(cl.initialisedBy)].value[0];
+                if (r.dependsOnExternal[static_cast<size_t>(cl.initialisedBy)]) {
+                    r.dependsOnExternal[c] = true;
+                }
+            }
             break;
         case GtRole::STATE:
             if (cl.initialisedBy >= 0) {
@@ -261,6 +276,152 @@ bool c20Underconstrain(GtModel &gt, const std::vector<int> &classes)
     return all;
 }
 
+namespace {
+
+struct Injector
+{
+    GtModel &gt;
+    int comp;
+    std::vector<std::pair<Expr, Expr>> eqs;
+    Injector(GtModel &g)
+        : gt(g)
+        , comp(g.voi >= 0 ? g.classes[static_cast<size_t>(g.voi)].inst[0].comp : 0)
+    {
+    }
+    CompSpec &cs() { return gt.spec.comps[static_cast<size_t>(comp)]; }
+    std::string voiName() { return cs().vars[static_cast<size_t>(gt.classes[static_cast<size_t>(gt.voi)].inst[0].var)].name; }
+    std::string name(int cls) { return cs().vars[static_cast<size_t>(gt.classes[static_cast<size_t>(cls)].inst[0].var)].name; }
+    int add(GtRole role, const std::string &stem, const std::string &initial, double v0, double v1)
+    {
+        std::string n = stem;
+        for (int k = 1;; ++k) {
+            bool taken = false;
+            for (const auto &v : cs().vars) {
+                taken = taken || v.name == n;
+            }
+            if (!taken) {
+                break;
+            }
+            n = stem + "_" + std::to_string(k);
+        }
+        VarSpec v;
+        v.name = n;
+        v.units = "dimensionless";
+        v.initial = initial;
+        cs().vars.push_back(v);
+        GtClass c;
+        c.role = role;
+        GtInstance in;
+        in.comp = comp;
+        in.var = static_cast<int>(cs().vars.size()) - 1;
+        in.units = "dimensionless";
+        c.inst.push_back(in);
+        c.value[0] = v0;
+        c.value[1] = v1;
+        c.varying = role == GtRole::STATE;
+        gt.classes.push_back(c);
+        return static_cast<int>(gt.classes.size()) - 1;
+    }
+    GtClass &cls(int k) { return gt.classes[static_cast<size_t>(k)]; }
+    int state(const std::string &stem, const std::string &initial, double v0, double v1, const Expr &rhs, double rate, const std::vector<int> &deps)
+    {
+        int s = add(GtRole::STATE, stem, initial, v0, v1);
+        cls(s).rhs = rhs;
+        cls(s).deps = deps;
+        cls(s).voiLocalInst = 0;
+        cls(s).rate[0] = cls(s).rate[1] = rate;
+        eqs.emplace_back(Expr::make(Op::DIFF, {Expr::ci(voiName()), Expr::ci(name(s))}), rhs);
+        return s;
+    }
+    void finish()
+    {
+        for (const auto &q : eqs) {
+            cs().equations.push_back(q);
+        }
+        if (!eqs.empty()) {
+            cs().math.push_back(mathBlock(eqs, 0));
+            gt.equationCount += eqs.size();
+        }
+    }
+};
+
+Expr lit(double v, const std::string &text)
+{
+    return Expr::cn(v, "dimensionless", text);
+}
+
+} // namespace
+
+int c20InjectInitialValueChain(GtModel &gt, unsigned variant)
+{
+    if (gt.spec.comps.empty()) {
+        return -1;
+    }
+    Injector in(gt);
+    const int k0 = in.add(GtRole::CONSTANT, "zK0", "0.6", 0.6, 0.6);
+    const int k1 = in.add(GtRole::CONSTANT, "zK1", in.name(k0), 0.6, 0.6);
+    in.cls(k1).initialisedBy = k0;
+    const int cc = in.add(GtRole::COMPUTED_CONSTANT, "zC", "", 1.2, 1.2);
+    in.cls(cc).rhs = Expr::make(Op::TIMES, {lit(2, "2"), Expr::ci(in.name(k1))});
+    in.cls(cc).deps.push_back(k1);
+    in.eqs.emplace_back(Expr::ci(in.name(cc)), in.cls(cc).rhs);
+    if (gt.voi >= 0) {
+        const int by = (variant % 2 == 1) ? k0 : k1;
+        const int x = in.state("zX", in.name(by), 0.6, 1.1, Expr::ci(in.name(k1)), 0.6, {k1});
+        in.cls(x).initialisedBy = by;
+    }
+    in.finish();
+    return k0;
+}
+
+int c20InjectNlaParameter(GtModel &gt, unsigned variant, int *other)
+{
+    if (gt.spec.comps.empty()) {
+        return -1;
+    }
+    Injector in(gt);
+    const int p = in.add(GtRole::NLA, "zP", "2", 2, 2);
+    in.cls(p).rhs = lit(2, "2");
+    const int y = in.add(GtRole::NLA, "zY", "1", 3, 3);
+    in.cls(y).rhs = Expr::make(Op::MINUS, {lit(5, "5"), Expr::ci(in.name(p))});
+    in.cls(y).deps.push_back(p);
+    GtNlaSystem sys;
+    sys.comp = in.comp;
+    sys.unknowns = {p, y};
+    sys.equations.emplace_back(Expr::make(Op::PLUS, {Expr::ci(in.name(p)), Expr::ci(in.name(y))}), lit(5, "5"));
+    in.cls(p).nlaSystem = in.cls(y).nlaSystem = static_cast<int>(gt.nla.size());
+    gt.nla.push_back(sys);
+    in.eqs.push_back(sys.equations[0]);
+    if (gt.voi >= 0 && variant % 2 == 1) {
+        in.state("zT", "0.3", 0.3, 0.9, Expr::ci(in.name(y)), 3, {y});
+    }
+    in.finish();
+    if (other != nullptr) {
+        *other = y;
+    }
+    return p;
+}
+
+int c20InjectRateRead(GtModel &gt, unsigned variant, int *other)
+{
+    if (gt.voi < 0) {
+        return -1;
+    }
+    Injector in(gt);
+    const int z = in.state("zZ", "0.4", 0.4, 1.3, lit(3, "3"), 3, {});
+    const int r = in.add(GtRole::ALGEBRAIC, "zR", "", 6, 6);
+    in.cls(r).varying = true;
+    Expr rate = Expr::make(Op::DIFF, {Expr::ci(in.voiName()), Expr::ci(in.name(z))});
+    in.cls(r).rhs = (variant % 2 == 0) ? Expr::make(Op::TIMES, {lit(2, "2"), rate}) : Expr::make(Op::PLUS, {rate, rate});
+    in.cls(r).deps.push_back(z);
+    in.eqs.emplace_back(Expr::ci(in.name(r)), in.cls(r).rhs);
+    in.finish();
+    if (other != nullptr) {
+        *other = r;
+    }
+    return z;
+}
+
 int c20InjectRateChain(GtModel &gt, unsigned variant)
 {
     if (gt.voi < 0) {
@@ -442,15 +603,61 @@ C20Staleness c20Staleness(const GtModel &gt, const std::vector<bool> &external, 
     for (size_t c = 0; c < n; ++c) {
         st.strict[c] = !tainted[c];
     }
+    // the same closure without the classes that vary with an external class only: what is still tainted then is exempt
+    // because of the VOI
+    std::vector<bool> variesWithoutExternals(n, false);
+    for (size_t c = 0; c < n; ++c) {
+        variesWithoutExternals[c] = gt.classes[c].role == GtRole::VOI || gt.classes[c].role == GtRole::STATE;
+    }
+    for (bool changed = true; changed;) {
+        changed = false;
+        for (size_t c = 0; c < n; ++c) {
+            if (variesWithoutExternals[c] || isExt(c)) {
+                continue;
+            }
+            for (int d : gt.classes[c].deps) {
+                if (variesWithoutExternals[static_cast<size_t>(d)]) {
+                    variesWithoutExternals[c] = true;
+                    changed = true;
+                    break;
+                }
+            }
+        }
+    }
+    std::vector<bool> voiTainted(n, false);
+    for (size_t c = 0; c < n; ++c) {
+        const GtRole r = gt.classes[c].role;
+        voiTainted[c] = !isExt(c) && (r == GtRole::COMPUTED_CONSTANT || r == GtRole::ALGEBRAIC || r == GtRole::NLA) && variesWithoutExternals[c] && !st.stateBased[c];
+    }
+    for (bool changed = true; changed;) {
+        changed = false;
+        for (size_t c = 0; c < n; ++c) {
+            if (voiTainted[c] || isExt(c) || gt.classes[c].role == GtRole::STATE) {
+                continue;
+            }
+            for (size_t d : reads[c]) {
+                if (voiTainted[d]) {
+                    voiTainted[c] = true;
+                    changed = true;
+                    break;
+                }
+            }
+        }
+    }
+    st.staleThroughExternalOnly.assign(n, false);
+    for (size_t c = 0; c < n; ++c) {
+        st.staleThroughExternalOnly[c] = tainted[c] && !voiTainted[c];
+    }
     return st;
 }
 
-RunResult c20TolerateStale(const GtModel &truth, const GtMapping &map, const RunResult &run, const C20Staleness &st, long *tolerated)
+RunResult c20TolerateStale(const GtModel &truth, const GtMapping &map, const RunResult &run, const C20Staleness &st, long *tolerated, bool judgeStaleThroughExternalOnly)
 {
     RunResult r = run;
     for (size_t i = 0; i < map.vars.size() && i < r.vars[1].size(); ++i) {
         const auto &ci = map.vars[i];
-        if (ci.first >= 0 && static_cast<size_t>(ci.first) < st.strict.size() && !st.strict[static_cast<size_t>(ci.first)]) {
+        if (ci.first >= 0 && static_cast<size_t>(ci.first) < st.strict.size() && !st.strict[static_cast<size_t>(ci.first)]
+            && !(judgeStaleThroughExternalOnly && st.staleThroughExternalOnly[static_cast<size_t>(ci.first)])) {
             r.vars[1][i] = truth.instanceValue(ci.first, ci.second, 1);
             if (tolerated != nullptr) {
                 ++*tolerated;
